@@ -6,7 +6,7 @@ R-FRESHID (C02, C03)  two sector ids taken from the length of the same table are
 """
 import re
 
-from cg import op_local
+from cg import op_local, peel
 from core import Finding, RuleResult, view, numeric
 from prov import Prov
 
@@ -164,6 +164,13 @@ def freshid(ctx):
             after = v.pg.reach_after(("t", bb1), avoid=growers)
             clash = [t for t in takes if t[2] == tab1 and ("t", t[0]) in after]
             key = "R-FRESHID/%s/%s" % (f.path, tab1)
+            # one length read names one new sector: two init_sector calls fed by the same read, one after the other,
+            # initialise the same sector twice (the second `new` sector takes the number the first was just given)
+            inits = [(b2, c2) for (b2, c2, i) in uses1 if c2.name.endswith("init_sector")]
+            twice = [(x, y) for x in inits for y in inits if x[0] != y[0] and ("t", y[0]) in v.pg.reach_after(("t", x[0]))]
+            if twice:
+                res.fail(Finding("R-FRESHID", key + "/one-id-two-new-sectors", "the id taken from self.%s.len() at line %d is given to init_sector at line %d and again at line %d: the second new sector gets the number the first one was just given, so one sector has two owners" % (tab1, c1.line, twice[0][0][1].line, twice[0][1][1].line), f, twice[0][1][1].term["span"]))
+                continue
             if clash:
                 t2 = clash[0]
                 res.fail(Finding("R-FRESHID", key + "/second-id-before-first-entered",
@@ -216,12 +223,34 @@ def freelist(ctx):
                 if snap:
                     res.ok({"function": f.path, "shrink": "%s.truncate line %d" % (m.group(1), c.line), "rollback_to_snapshot_at_line": snap}, nontrivial=True)
                     continue
+            if not rets:
+                # an error exit taken between the shrink and the filter leaves the same stale id behind, for the next
+                # call to trip over
+                after_e = v.pg.reach_after(("t", bb), avoid=fixes)
+                rets_e = [x for x in after_e if x[0] == "t" and f.blocks[x[1]]["term"]["t"] == "return"]
+                if rets_e and not _only_from_constructors(ctx, f) and not (short == "truncate" and len(c.term["args"]) > 1 and _snapshot_rollback(ctx, f, v, pr, c, m.group(1), fl)):
+                    res.fail(Finding("R-FREELIST", key + "/free-list-not-refiltered-on-error-exit", "self.%s.%s() shortens the table and an error exit can leave the function before retain()/clear() on self.%s: after the failed call an id left in the free list indexes past the end of the table at the next allocation (index out of bounds)" % (m.group(1), short, fl), f, c.term["span"]))
+                    continue
             if rets:
                 res.fail(Finding("R-FREELIST", key + "/free-list-not-refiltered", "self.%s.%s() shortens the table and the function can return without retain()/clear() on self.%s: an id left in the free list indexes past the end of the table at the next allocation (index out of bounds)" % (m.group(1), short, fl), f, c.term["span"]))
             else:
                 res.ok({"function": f.path, "shrink": "%s.%s line %d" % (m.group(1), short, c.line), "refiltered_at": sorted(f.blocks[x[1]]["term"]["span"]["line"] for x in fixes)}, nontrivial=True)
     res.floor("table shrink sites", n, ctx.table("floors").get("freelist_sites", 0))
     return res
+
+
+def _only_from_constructors(ctx, f):
+    """Every caller of f builds the object f works on (it returns Result<Self, _>): when f fails, the object is
+    never handed out, so what an error exit leaves behind in it is seen by nobody."""
+    adt = peel(f.d.get("impl_self", {})).get("adt")
+    callers = [g for g in ctx.fx.fns.values() if any(f in c.targets for c in ctx.cg.calls[g.path])]
+    if not adt or not callers:
+        return False
+    for g in callers:
+        r = g.locals[0]
+        if not (r.get("adt") == "std::result::Result" and r.get("args") and isinstance(r["args"][0], dict) and r["args"][0].get("adt") == adt):
+            return False
+    return True
 
 
 def _pushes_free_list(ctx, fl):
@@ -256,15 +285,18 @@ def _pushes_free_list(ctx, fl):
 
 def _snapshot_rollback(ctx, f, v, pr, trunc, table, fl):
     a = trunc.term["args"][1]
-    if a["k"] not in ("copy", "move") or a["place"]["proj"]:
+    if a["k"] not in ("copy", "move"):
         return None
+    # (a projected place is a value captured by a closure that was lowered into this function: judged by its base)
     from dataflow import forward_taint
     pushers = _pushes_free_list(ctx, fl)
     for bb, c in v.calls.items():
         if c.name.endswith("Vec::<T, A>::len") and c.term["args"] and pr.operand(c.term["args"][0]) == "param:self." + table and not c.term["dest"]["proj"]:
             d = c.term["dest"]["local"]
             # the truncate argument is exactly that snapshot (copies only, no arithmetic)
-            if pr.operand(a) != "len(param:self.%s)" % table or a["place"]["local"] not in forward_taint(f, {d}, through_refs=False):
+            # (a snapshot captured by reference by a closure that was lowered into this function is read through
+            # the reference: the provenance already says it is the bare length)
+            if pr.operand(a) != "len(param:self.%s)" % table or (a["place"]["local"] not in forward_taint(f, {d}, through_refs=False) and a["place"]["local"] not in forward_taint(f, {d}, through_refs=True)):
                 continue
             # the snapshot dominates the truncate
             if ("t", trunc.bb) in v.pg.reach([v.pg.entry()], avoid={("t", bb)}):
@@ -2388,9 +2420,14 @@ def keepcount(pid):
                 pr = pr or Prov(f)
                 a = pr.operand(c.term["args"][1])
                 m = re.match(r"^(?:deref\()?Index<I>::index\(param:self\.sector_ids,(.*)\)\)?$", a)
+                k = m.group(1) if m else None
                 if not m:
+                    # `self.sector_ids[..N].last()` is the element at N - 1, `[..=N].last()` the one at N
+                    m2 = re.match(r"^(?:deref\()?(?:ok|some)\(<impl \[T\]>::last\(Index<I>::index\(param:self\.sector_ids,(RangeToInclusive::RangeToInclusive|RangeTo::RangeTo)\((.*)\)\)\)\)\)?$", a)
+                    if m2:
+                        k = m2.group(2) if m2.group(1).startswith("RangeToInclusive") else "Sub(%s,const:1)" % m2.group(2)
+                if k is None:
                     continue
-                k = m.group(1)
                 atoms = _guards(ctx, f).atoms_at(("t", bb))
                 ns = [re.match(r"^\(Lt\((.*),len\(param:self\.sector_ids\)\)\)$", x) for x in atoms]
                 ns = [x.group(1) for x in ns if x]
@@ -2641,5 +2678,286 @@ def handlekind(pid):
                 else:
                     res.fail(Finding(res.rule, "R-HANDLEKIND/%s/handle-on-unchecked-entry" % f.path, "%s makes a stream handle for entry %s without having established that it is a stream (type tests on the path: %s): for a storage or the root the handle reads, resizes or frees a chain that is not a user stream's" % (f.path.split("::")[-1], idp[:50], "; ".join(a[-50:] for a in atoms if "ObjType::" in a)[:150] or "none"), f, c.term["span"]))
         res.floor("stream handles made in the API layer", n, ctx.table("floors").get("handlekind_sites", 0))
+        return res
+    return run
+
+
+def storagefields(pid):
+    """R-STORAGEFIELDS: `start sector or size on storages` is a tolerated deviation: whatever a storage entry carries in
+    those two fields, permissive open reads the entry as if they were zero.  In DirEntry::read_from, on the paths a
+    Storage entry takes in permissive mode, no test of a value computed from the start-sector or size words decides
+    between acceptance and refusal."""
+    def run(ctx):
+        from rules_sink import _edge_label
+        from cfg import reach_flag_aware
+        from dataflow import forward_taint
+        res = RuleResult("R-STORAGEFIELDS(%s)" % pid, "on the paths of DirEntry::read_from that a Storage entry takes in permissive mode, no comparison of the start-sector / size words separates an accepted entry from a refused one")
+        f = ctx.fx.fns.get("internal::direntry::DirEntry::read_from")
+        if f is None:
+            res.gone.append("DirEntry::read_from")
+            return res
+        v = view(ctx, f)
+        pg = v.pg
+        g = _guards(ctx, f)
+        targets = set()
+        oks = []
+        for bb, blk in enumerate(f.blocks):
+            if blk["cleanup"]:
+                continue
+            for i, st in enumerate(blk["stmts"]):
+                if st["s"] != "assign" or st["rv"]["r"] != "aggregate":
+                    continue
+                if st["place"]["local"] == 0 and not st["place"]["proj"] and st["rv"].get("variant") == "Ok":
+                    oks.append(("s", bb, i))
+                if str(st["rv"].get("adt", "")).endswith("DirEntry"):
+                    names = st["rv"].get("fields") or []
+                    for k, op in enumerate(st["rv"].get("ops", [])):
+                        if k < len(names) and names[k] in ("start_sector", "stream_len") and op_local(op) is not None:
+                            targets.add(op_local(op))
+        seeds = set()
+        for bb, c in v.calls.items():
+            if re.search(r"read_le_u(32|64)$", c.name) and not c.term["dest"]["proj"]:
+                d = c.term["dest"]["local"]
+                if targets & forward_taint(f, {d}, through_calls=True):
+                    seeds.add(d)
+        T = forward_taint(f, seeds, through_calls=True) if seeds else set()
+        barrier = set()
+        for b, blk in enumerate(f.blocks):
+            if blk["cleanup"] or blk["term"]["t"] != "switch":
+                continue
+            for k, tgt in enumerate(f.succ(b)):
+                val, vals = _edge_label(f, b, k)
+                for a in g.describe_all(b, val, vals):
+                    if re.search(r" is not ObjType::Storage$", a) or (re.search(r" is ObjType::(\w+)$", a) and not a.endswith("::Storage")) or re.match(r"^\(Validation::is_strict\(", a):
+                        barrier.update(pg.edge_node(b, tgt))
+        reach = reach_flag_aware(f, pg, [pg.entry()], barrier)
+        n = 0
+        for b, blk in enumerate(f.blocks):
+            t = blk["term"]
+            if blk["cleanup"] or t["t"] != "switch" or ("t", b) not in reach:
+                continue
+            dl = op_local(t["discr"])
+            if dl is None or dl not in T:
+                continue
+            if any(st["s"] == "assign" and st["place"]["local"] == dl and st["rv"]["r"] == "discriminant" for st in blk["stmts"]) or f.locals[dl]["s"] not in ("bool", "u8", "u16", "u32", "u64", "usize"):
+                continue
+            n += 1
+            verdicts = []
+            for tgt in sorted(set(f.succ(b))):
+                es = [e for e in pg.edge_node(b, tgt) if e not in barrier]
+                if not es:
+                    continue
+                r2 = pg.reach(es, barrier)
+                verdicts.append(any(o in r2 for o in oks))
+            if verdicts and any(verdicts) and not all(verdicts):
+                res.fail(Finding(res.rule, "R-STORAGEFIELDS/%s/storage-refused-on-start-or-size" % f.path, "a Storage entry read in permissive mode reaches a test of a value computed from its start-sector / size words, and one outcome of the test can only end in a refusal: garbage in fields the library documents as tolerated on storages makes permissive open fail", f, t["span"]))
+            else:
+                res.ok({"test_line": t["span"]["line"], "outcomes_accepting": verdicts}, nontrivial=True)
+        if n == 0:
+            res.ok({"reachable_tests_of_the_two_words": 0, "words_read_at": sorted(f.blocks[b_]["term"]["span"]["line"] for b_, c_ in v.calls.items() if not c_.term["dest"]["proj"] and c_.term["dest"]["local"] in seeds)}, nontrivial=True)
+        res.floor("reads feeding start_sector / stream_len", len(seeds), ctx.table("floors").get("storagefields_reads", 0))
+        res.floor("Ok returns of read_from", len(oks), ctx.table("floors").get("nameinv_oks", 0))
+        return res
+    return run
+
+
+def callee_name_(t):
+    from facts import callee_name
+    return callee_name(t) or ""
+
+
+def _mutators_of(ctx, field):
+    """Functions that change the length of `self.<field>` (directly, or through a callee that does)."""
+    cache = ctx.__dict__.setdefault("_len_mutators", {})
+    if field in cache:
+        return cache[field]
+    MUT = ("push", "pop", "truncate", "clear", "remove", "swap_remove", "drain", "split_off", "retain", "insert", "extend", "extend_from_slice", "append", "resize")
+    out = set()
+    for f in ctx.fx.fns.values():
+        pr = None
+        for c in ctx.cg.calls[f.path]:
+            if c.name.split("::")[-1] in MUT and "Vec" in c.name and c.term["args"]:
+                pr = pr or Prov(f)
+                if pr.operand(c.term["args"][0]) == "param:self." + field:
+                    out.add(f.path)
+    changed = True
+    while changed:
+        changed = False
+        for p, f in ctx.fx.fns.items():
+            if p in out:
+                continue
+            pr = None
+            for c in ctx.cg.calls[p]:
+                if any(g.path in out for g in c.targets) and c.term.get("args"):
+                    pr = pr or Prov(f)
+                    if pr.operand(c.term["args"][0]) in ("param:self", "deref(param:self)"):
+                        out.add(p)
+                        changed = True
+                        break
+    cache[field] = out
+    return out
+
+
+def growcount(pid):
+    """R-GROWCOUNT: a count taken from a table describes the table at that moment.  The sector list of a chain handle
+    is the chain: growing to N sectors appends N - len sectors, where len is the length of the list when the appending
+    starts.  The cached FAT is the file: the id of a sector added at the end of the file is fat.len() when that sector
+    is added.  A length taken earlier and used (as the start of a counting range, as a new sector's id, in a
+    comparison or an index) after the table was already pushed to or cut - directly or by a callee - counts against a
+    table that no longer exists: a chain grown from empty gets one sector more than its length covers, a new DIFAT
+    sector gets the id the new FAT sector was just given.  Handing the old length to `truncate` on the same table (the
+    roll-back of a failed append) is the one use that wants the old value."""
+    MUT = ("push", "pop", "truncate", "clear", "remove", "swap_remove", "drain", "split_off", "retain", "insert", "extend", "extend_from_slice", "append", "resize")
+    # the allocators are not in scope: there `let id = fat.len(); set_fat(id, ..); init_sector(id, ..)` uses the old
+    # length on purpose, as the id of the entry just pushed (R-FRESHID decides those)
+    SCOPE = [(r"internal::(chain|minichain)::", ("sector_ids",))]
+
+    def run(ctx):
+        res = RuleResult("R-GROWCOUNT(%s)" % pid, "in the chain handles (Chain, MiniChain) no value of self.sector_ids.len() is used after the list was changed (directly or by a callee) on the way from where the length was taken - except to roll the same list back")
+        n = 0
+        for f in ctx.fx.fns.values():
+            fields = [fl for rx, fls in SCOPE if re.search(rx, f.path) for fl in fls]
+            if not fields or f.kind == "closure":
+                continue
+            v = view(ctx, f)
+            calls = list(v.calls.values())
+            lens = [c for c in calls if re.search(r"Vec::<T, A>::len$", c.name) and c.term["args"] and not c.term["dest"]["proj"]]
+            if not lens:
+                continue
+            pr = Prov(f)
+            for c in lens:
+                m = re.match(r"^param:self\.(\w+)$", pr.operand(c.term["args"][0]))
+                if not m or m.group(1) not in fields:
+                    continue
+                field = m.group(1)
+                n += 1
+                mutators = _mutators_of(ctx, field)
+                muts = []
+                for x in calls:
+                    if not x.term.get("args"):
+                        continue
+                    a0 = pr.operand(x.term["args"][0])
+                    if x.name.split("::")[-1] in MUT and "Vec" in x.name and a0 == "param:self." + field:
+                        muts.append(x)
+                    elif a0 in ("param:self", "deref(param:self)") and _call_pushes(ctx, f, x.bb, mutators):
+                        muts.append(x)
+                if not muts:
+                    res.ok({"function": f.path, "table": field, "len_line": c.line, "table_changed": False})
+                    continue
+                # the length and its plain copies; a copy into a variable that is assigned more than once (a loop
+                # counter started at the length) is a use of the length at that point, not another name for it
+                ndefs = {}
+                for blk in f.blocks:
+                    for st in blk["stmts"]:
+                        if st["s"] == "assign" and not st["place"]["proj"]:
+                            ndefs[st["place"]["local"]] = ndefs.get(st["place"]["local"], 0) + 1
+                    if blk["term"]["t"] == "call" and not blk["term"]["dest"]["proj"]:
+                        ndefs[blk["term"]["dest"]["local"]] = ndefs.get(blk["term"]["dest"]["local"], 0) + 1
+                if ndefs.get(c.term["dest"]["local"], 0) > 1:
+                    # `let mut index = list.len(); while index < n { push; index += 1 }`: the length starts a counter
+                    res.ok({"function": f.path, "table": field, "len_line": c.line, "starts_a_counter": True})
+                    continue
+                held = {c.term["dest"]["local"]}
+                counter_inits = []
+                changed = True
+                while changed:
+                    changed = False
+                    for b_, blk in enumerate(f.blocks):
+                        for i_, st in enumerate(blk["stmts"]):
+                            if st["s"] == "assign" and not st["place"]["proj"] and st["rv"]["r"] in ("use", "cast") and op_local(st["rv"]["op"]) in held and st["place"]["local"] not in held:
+                                if ndefs.get(st["place"]["local"], 0) > 1:
+                                    if (("s", b_, i_), st["span"]) not in counter_inits:
+                                        counter_inits.append((("s", b_, i_), st["span"]))
+                                    continue
+                                held.add(st["place"]["local"])
+                                changed = True
+                uses = list(counter_inits)
+                for b, blk in enumerate(f.blocks):
+                    if blk["cleanup"]:
+                        continue
+                    for i, st in enumerate(blk["stmts"]):
+                        if st["s"] != "assign":
+                            continue
+                        rv = st["rv"]
+                        ops = [rv[k] for k in ("op", "a", "b") if isinstance(rv.get(k), dict)] + (rv.get("ops", []) if isinstance(rv.get("ops"), list) else [])
+                        if rv["r"] not in ("use", "cast") and any(op_local(o) in held for o in ops):
+                            uses.append((("s", b, i), st["span"]))
+                    t = blk["term"]
+                    if t["t"] == "call" and any(op_local(a) in held for a in t["args"]):
+                        nm = callee_name_(t)
+                        if nm.split("::")[-1] == "truncate" and t["args"] and pr.operand(t["args"][0]) == "param:self." + field:
+                            continue        # roll-back to the snapshot
+                        if nm.startswith("core::panicking") or nm.startswith("std::rt::") or "fmt::" in nm:
+                            continue
+                        uses.append((("t", b), t["span"]))
+                    if t["t"] == "switch" and op_local(t["discr"]) in held:
+                        uses.append((("t", b), t["span"]))
+                stale = None
+                for mx in muts:
+                    if ("t", mx.bb) not in v.pg.reach_after(("t", c.bb)):
+                        continue
+                    after = v.pg.reach_after(("t", mx.bb), avoid={("t", c.bb)})
+                    for node, sp in uses:
+                        if node in after:
+                            stale = (sp, mx)
+                            break
+                    if stale:
+                        break
+                if stale:
+                    res.fail(Finding(res.rule, "R-GROWCOUNT/%s/stale-length-of-%s" % (f.path, field), "the value of self.%s.len() taken at line %d is used at line %d after the table was changed by %s() at line %d: the count or id it feeds (sectors to append, the index to cut at, the number of a sector added at the end of the file) is off by what was pushed or cut in between" % (field, c.line, stale[0]["line"], stale[1].name.split("::")[-1], stale[1].line), f, stale[0]))
+                else:
+                    res.ok({"function": f.path, "table": field, "len_line": c.line, "table_changed_later": True, "length_used_after_change": False}, nontrivial=True)
+        res.floor("lengths of the sector list taken in chain handles", n, ctx.table("floors").get("growcount_sites", 0))
+        return res
+    return run
+
+
+def difatlink(pid):
+    """R-DIFATLINK: a fresh DIFAT sector is FREE in every slot and END_OF_CHAIN in its last word, the link (MS-CFB 2.5).
+    The reader takes any non-FREE slot for a FAT sector id, and the link for the next DIFAT sector.  So on the Difat
+    arm of SectorInit::initialize the END_OF_CHAIN word reaches the sector through exactly one write that is not inside
+    a loop: written by a loop (a pattern block repeated per 512 bytes) it lands in every 128th slot of a 4096-byte
+    sector and the image stops reopening once such a sector exists."""
+    def run(ctx):
+        from rules_sink import _edge_label
+        from cfg import natural_loops
+        res = RuleResult("R-DIFATLINK(%s)" % pid, "on the Difat arm of SectorInit::initialize END_OF_CHAIN is written to the sector by a write outside every loop (once per sector, as the last word), and by no write inside a loop")
+        f = ctx.fx.fns.get("internal::sector::SectorInit::initialize")
+        if f is None:
+            res.gone.append("SectorInit::initialize")
+            return res
+        v = view(ctx, f)
+        pg = v.pg
+        g = _guards(ctx, f)
+        pr = Prov(f)
+        barrier = set()
+        for b, blk in enumerate(f.blocks):
+            if blk["cleanup"] or blk["term"]["t"] != "switch":
+                continue
+            for k, tgt in enumerate(f.succ(b)):
+                val, vals = _edge_label(f, b, k)
+                for a in g.describe_all(b, val, vals):
+                    if re.search(r"param:self is not SectorInit::Difat$", a) or (re.search(r"param:self is SectorInit::(\w+)$", a) and not a.endswith("::Difat")):
+                        barrier.update(pg.edge_node(b, tgt))
+        reach = pg.reach([pg.entry()], barrier)
+        inloop = set()
+        for (h, body, back) in natural_loops(f):
+            inloop |= set(body)
+        once, many, n_writes = [], [], 0
+        for bb, c in sorted(v.calls.items()):
+            if ("t", bb) not in reach or "io_write" not in ctx.cg.call_effects(c):
+                continue
+            n_writes += 1
+            if not any("END_OF_CHAIN" in pr.operand(a) or "4294967294" in pr.operand(a) for a in c.term["args"]):
+                continue
+            (many if bb in inloop else once).append(c)
+        if many:
+            res.fail(Finding(res.rule, "R-DIFATLINK/%s/link-word-written-in-a-loop" % f.path, "the Difat arm writes END_OF_CHAIN inside a loop: every repetition puts the link marker into a slot", f, many[0].term["span"]))
+        elif not once:
+            sp = f.d["span"] if isinstance(f.d.get("span"), dict) else f.blocks[0]["term"]["span"]
+            res.fail(Finding(res.rule, "R-DIFATLINK/%s/no-single-write-of-the-link-word" % f.path, "no write on the Difat arm outside a loop carries END_OF_CHAIN: the link word of a fresh DIFAT sector is either missing or produced by a repeated pattern (every 128th slot of a 4096-byte sector)", f, sp))
+        else:
+            res.ok({"function": f.path, "link_written_at_line": once[0].line, "writes_on_the_difat_arm": n_writes}, nontrivial=True)
+        res.floor("writes on the Difat arm", n_writes, ctx.table("floors").get("difatlink_writes", 0))
         return res
     return run
